@@ -496,14 +496,13 @@ func (g *gen) xwidth(w int, wrap bool, n int) int {
 func (g *gen) widthPad(n int) int { return g.xwidth(g.width(), false, n) }
 func (g *gen) widthWrap() int     { return g.xwidth(g.width(), true, 0) }
 
-// FINDING D21 (open, reported): InsertDefinitionsTableOpts has the same wrap-around of its own
-// (operations.go `rightWidth := width - leftWidth - minBetween`, then Wrap(def, rightWidth-2)): for a
-// width within longestTerm+6 of math.MinInt the definition is not wrapped at all, while every other
-// negative width wraps it at the minimum width 2; Edit("").InsertDefinitionsTable(0,
-// [][2]string{{"a","b c d"}}, math.MinInt) returns "  a  - b c d\n", for -5 "  a  - b\n       c\n       d\n".
-// With the flag on, group A-deftable reports the divergence between the real code and the model
-// (16 cases in 3 rounds of C18 quick).  Switch it on when D21 is repaired.
-const deftableExtremeWidths = false
+// D21: InsertDefinitionsTableOpts had the same wrap-around of its own (operations.go
+// `rightWidth := width - leftWidth - minBetween`, then Wrap(def, rightWidth-2)): for a width within
+// longestTerm+6 of math.MinInt the definition was not wrapped at all, while every other negative
+// width wraps it at the minimum width 2; Edit("").InsertDefinitionsTable(0,
+// [][2]string{{"a","b c d"}}, math.MinInt) returned "  a  - b c d\n", for -5 "  a  - b\n       c\n       d\n".
+// With the flag off no extreme width is drawn for deftable steps.
+const deftableExtremeWidths = true
 
 func (g *gen) widthDefTable() int {
 	if deftableExtremeWidths {
